@@ -274,19 +274,23 @@ func (e *env) do(endpoint, qtext, db string, car carrier, user, pw string) (stat
 }
 
 func TestCheck(t *testing.T) {
+	if schedWorker(t) {
+		return
+	}
 	meta.VSetBcryptCost(bcrypt.MinCost)
 	c := report.Begin("C16", "model_checking")
 	c.Rule = "(i) requests = statement catalogue (singly and in ordered pairs) x user populations x credential carriers x default database through the real httpd.Handler; (ii) states = (users, passwords, grants, credential cache) reached by BFS over changes installed into the real meta.Client and authentications; distinct = decision classes + states"
 	c.Assumptions = []string{
 		"what a statement needs is taken from influxql's RequiredPrivileges (a dependency, trusted); the decision procedure (admin short-cut, default-database substitution, ALL covers READ/WRITE, every statement of a request, bootstrap rule) is modelled independently",
 		"a metadata change 'reaches the node' by the same assignment + updateAuthCache the client's polling loop performs; bcrypt at minimum cost",
-		"an Authenticate overlapping the arrival of a change is a schedule, not a history, and is outside this check",
+		"(iii) an Authenticate overlapping the arrival of a change: 2 threads over the real meta.Client, every sync operation of services/meta a scheduling point, all schedules (no bound), cold and warm cache",
 	}
 	if *replayFile != "" {
 		t.Skip("replay: the request is described in the replay file")
 	}
 	partRequests(t, c)
 	partHistories(t, c)
+	partSchedules(t, c)
 	report.ExitCode = c.Finish()
 }
 
